@@ -4,6 +4,7 @@ package main
 
 import (
 	"encoding/json"
+	"go/ast"
 	"flag"
 	"fmt"
 	"os"
@@ -52,6 +53,27 @@ func main() {
 			} else {
 				fmt.Printf("R %-50s recvMut=%v\n", f.Name, e.recvMut[f.Obj])
 			}
+		}
+	case "panicbudget":
+		p, err := Load("/repo", nil)
+		if err != nil {
+			fmt.Println(err)
+			os.Exit(2)
+		}
+		counts := map[string]int{}
+		for _, f := range p.FuncsIn("json", "jsontext", "internal", "jsonflags", "jsonopts", "jsonwire", "v1") {
+			if f.Body() == nil {
+				continue
+			}
+			InspectNoLit(f.Body(), func(nd ast.Node) bool {
+				if call, ok := nd.(*ast.CallExpr); ok && IsBuiltin(f.Info(), call, "panic") {
+					counts[f.Name]++
+				}
+				return true
+			})
+		}
+		for _, k := range sortedKeys(counts) {
+			fmt.Printf("\t%q: %d,\n", k, counts[k])
 		}
 	case "manifest":
 		os.Exit(cmdManifest())
